@@ -274,6 +274,8 @@ std::vector<std::string> split(const std::string& s, std::size_t n)
 {
   using diff_type = typename std::iterator_traits<decltype(s.begin())>::difference_type;
   std::vector<std::string> v;
+  if (n == 0)
+    throw Exception("TextTools::split(): the chunk size must be positive.");
   auto nbChunks = IntegerTools::divideUp(s.size(), n);
   v.reserve(nbChunks);
   // Copy chunks by chunks, and add the last incomplete one if s.size () % n != 0
